@@ -47,4 +47,27 @@ META = {
     },
 }
 
+META["C15"] = {
+    "level": "proof",
+    "level_text": "Deductive proof over every query tree: _extract_metadata.visit_Call (and the "
+    "inherited FuncADLNodeTransformer.visit_Call in that class's context) returns strip_metadata(node) "
+    "and extends the metadata list by collect_metadata(node) in pre-order (outer wrapper first); "
+    "_cleaner.visit_Call / generic_visit return drop_empty_metadata(node); the frame obligation "
+    "`modifies nothing` is discharged for remove_empty_metadata (every write goes to an object "
+    "allocated in the call). 'Literals are fixed points of the cleaner' is a lemma proved by "
+    "structural induction. A bounded contract check (~360 wrapper placements quick) runs alongside.",
+    "level_note": "Trusted: NodeTransformer model, copy.copy model, ast.literal_eval as an "
+    "uninterpreted function defined on structural literals, visitor induction, z3, own VC generator. "
+    "Domain (md_wf): every MetaData wrapper has two arguments, a literal second argument, and the "
+    "callee of a call is never itself a call.",
+    "technique": "contract-based deductive verification (VCs from real source incl. frame/freshness obligations, lemma by structural induction, z3); bounded contract check as labelled stand-in",
+    "p_keys": True,
+    "explanation": "Contract-based deductive verification of func_adl/ast/meta_data.py against the "
+    "recursive spec functions strip_metadata / collect_metadata / drop_empty_metadata, with frame "
+    "obligations for the documented non-mutation.",
+    "assumptions": ["md_wf: MetaData wrappers have exactly two arguments with a literal second "
+                    "argument; callees are never calls (stated domain restriction)"],
+    "p_timeout": 400,
+}
+
 NOT_APPLICABLE = {}
